@@ -15,23 +15,10 @@
   `platform.ID` is a `Nat` (0 = invalid).  kv transactions are serialisable and every
   operation here runs alone, so a transaction is a pure function on `St`.
 -/
+import Influx.Model.DBRPTypes
+import Influx.Generated.DBRP
+
 namespace Influx.DBRP
-
-structure Mapping where
-  ID : Nat
-  Database : String
-  RetentionPolicy : String
-  Default : Bool
-  Virtual : Bool
-  OrganizationID : Nat
-  BucketID : Nat
-deriving Repr, DecidableEq, Inhabited
-
-structure Bucket where
-  ID : Nat
-  OrgID : Nat
-  Name : String
-deriving Repr, DecidableEq, Inhabited
 
 structure St where
   recs : List Mapping
@@ -205,24 +192,10 @@ def delete (s : St) (org id : Nat) : St × Except Err Unit :=
 
 /-! ### `Service.FindMany` -/
 
-structure Filter where
-  ID : Option Nat := none
-  OrgID : Option Nat := none
-  BucketID : Option Nat := none
-  Database : Option String := none
-  RetentionPolicy : Option String := none
-  Default : Option Bool := none
-  Virtual : Option Bool := none
-deriving Repr, DecidableEq, Inhabited
-
+/-- `filterFunc` of `dbrp/service.go`, regenerated from /repo by the translator
+    (`Influx.Generated.DBRP.filterFunc`, `none` = nil dereference; it never is: `filterFunc_total`) -/
 def filterFunc (m : Mapping) (f : Filter) : Bool :=
-  (f.ID.isNone || f.ID == some m.ID) &&
-  (f.OrgID.isNone || f.OrgID == some m.OrganizationID) &&
-  (f.BucketID.isNone || f.BucketID == some m.BucketID) &&
-  (f.Database.isNone || f.Database == some m.Database) &&
-  (f.RetentionPolicy.isNone || f.RetentionPolicy == some m.RetentionPolicy) &&
-  (f.Default.isNone || f.Default == some m.Default) &&
-  (f.Virtual.isNone || f.Virtual == some m.Virtual)
+  Influx.Generated.DBRP.filterFunc m f == some true
 
 /-- the visitor `add`: recompute `Default` from the defaults bucket (`*defID` panics when the
     database has no default entry), then filter -/
